@@ -509,4 +509,41 @@ def fix_candidate(cand, base):
         for key in ("to", "child", "r2"):
             if key in o and not isinstance(o[key], int):
                 return None
+    if not static_ok(cand["ops"], cand.get("regs", NREGS)):
+        return None
     return cand
+
+
+def static_ok(ops, n):
+    """the generator's own restrictions, re-checked on shrunk histories: no merge between relatives (the source would
+    change under the iteration), no SetChild of a relative (cyclic structure) or of a config that already has a parent
+    (known finding D20)"""
+    sg = Groups(n)
+    attached = set()
+    live = set()
+    for o in ops:
+        r = o["r"]
+        if any(x < 0 or x >= n for x in [r] + [o[k] for k in ("to", "child", "r2") if k in o] + list(regs_in(o.get("from")))):
+            return False
+        needs = ([] if o["op"] == "new" else [r]) + [o[k] for k in ("child", "r2") if k in o] + list(regs_in(o.get("from")))
+        if any(x not in live for x in needs):
+            return False       # an operation on a register that holds nothing would be skipped
+        if o["op"] == "new":
+            live.add(r)
+        if o["op"] == "child":
+            live.add(o["to"])
+        if o["op"] == "new":
+            sg.fresh(r); attached.discard(r)
+        elif o["op"] == "merge":
+            if any(sg.same(j, r) for j in regs_in(o.get("from"))):
+                return False
+        elif o["op"] == "child":
+            if o["to"] == r:
+                return False
+            sg.fresh(o["to"]); sg.join(o["to"], r); attached.add(o["to"])
+        elif o["op"] == "setchild":
+            ch = o["child"]
+            if sg.same(ch, r) or ch in attached:
+                return False
+            sg.join(ch, r); attached.add(ch)
+    return True
